@@ -15,7 +15,7 @@ import (
 func c04pool() []Bind {
 	return []Bind{
 		{"vnil", vNil()}, {"vt", vBool(true)}, {"vf", vBool(false)}, {"vi", vInt(3)}, {"vz", vInt(0)}, {"vneg", vInt(-2)},
-		{"vfl", vFloat("1.5")}, {"vs", vStr("str")}, {"vre", vStr("(")}, {"vre2", vStr("a[")}, {"ve", vStr("")}, {"vh", vHTML("<b>")},
+		{"vfl", vFloat("1.5")}, {"vs", vStr("str")}, {"vre", vStr("(")}, {"vre2", vStr("a[")}, {"ve", vStr("")}, {"vh", vHTML("<b>")}, {"vhe", vHTML("")},
 		// value-dependent paths of the helpers: longer than the default sizes, multi-byte
 		{"vlong", vStr(strings.Repeat("世", 20))}, {"vlonga", vStr(strings.Repeat("ab<", 24))},
 		{"vxs", vSlice("iface", vInt(1), vStr("a"))}, {"vxe", vSlice("iface")}, {"vss", vSlice("string", vStr("a"), vStr("b"))}, {"vis", vSlice("int", vInt(1), vInt(2))},
@@ -34,6 +34,12 @@ type strer struct{}
 
 func (strer) String() string { return "<strer>" }
 
+type docB struct{ ID []byte }
+type docS struct{ Slug []string }
+type docM struct{ ID map[string]int }
+
+var tm0 = time.Unix(0, 0).UTC()
+
 func c04extra() map[string]interface{} {
 	var pp **T0
 	t0 := &T0{"pp"}
@@ -45,6 +51,10 @@ func c04extra() map[string]interface{} {
 		"xstrer": strer{}, "xhtmler": template.HTML("<h>"), "xmapstruct": map[T0]int{{"k"}: 1}, "xfnerr": func() error { return nil }, "xfnpanic": func(a, b, c, d, e int) {},
 		"xnilslice": []string(nil), "xnilmap": map[string]interface{}(nil), "xiface": []interface{}{nil, 1}, "xfnvar": func(xs ...int) int { return len(xs) },
 		"xfnmap": func(m map[string]interface{}) int { return len(m) }, "xbytes": []byte("hi"), "xptrslice": &[]int{1, 2}, "xptrmap": &map[string]int{"a": 1},
+		// typed nil / non-nil pointers to printable structs, containers whose element or key type is a
+		// non-empty interface, structs with uncomparable Slug / ID fields (pathFor compares them)
+		"xniltime": (*time.Time)(nil), "xptime": &tm0, "xstringers": []fmt.Stringer{strer{}}, "xerrs": []error{fmt.Errorf("e")}, "xstrmap": map[fmt.Stringer]int{strer{}: 1},
+		"xidbytes": docB{ID: []byte{1, 2}}, "xidzero": docB{}, "xslugs": &docS{Slug: []string{"a"}}, "xidmap": docM{ID: map[string]int{"a": 1}}, "xidlist": []interface{}{docB{ID: []byte{3}}},
 	}
 }
 
@@ -70,7 +80,7 @@ func init() {
 	register("C04", func(e *Env) {
 		renderPrelude()
 		e.perShard = 60
-		e.rep.Rule = "matrices over a pool of 29 modelled value kinds (+26 Go-only kinds judged by the panic oracle alone): (operator x left x right), (container x index x assigned value), (receiver x member/method), iterables, (callee x argument lists), (built-in x argument kinds, + long and multi-byte string values with sizes around the helpers' defaults); plus random programs; every case runs under recover + watchdog, modelled cases are also re-evaluated by the Coq model; non-trivial = evaluation reached (parsed OK); distinct by template"
+		e.rep.Rule = "matrices over a pool of 29 modelled value kinds (+36 Go-only kinds judged by the panic oracle alone: small ints, named types, arrays, chans, typed nil pointers incl. *time.Time, containers with non-empty interface element / key types, structs with uncomparable ID / Slug fields, ...): (operator x left x right), (container x index x assigned value), (receiver x member/method), iterables, (callee x argument lists), (built-in x argument kinds, + long and multi-byte string values with sizes around the helpers' defaults); containers changed by the body of the loop over them, results of slice + used as receivers; plus random programs; every case runs under recover + watchdog, modelled cases are also re-evaluated by the Coq model; non-trivial = evaluation reached (parsed OK); distinct by template"
 		pool := c04pool()
 		names := []string{}
 		for _, b := range pool {
@@ -209,6 +219,16 @@ func init() {
 			e.Violate("c04-cyclic-slice-stack-overflow", "<% vxs[0] = vxs %><%= vxs %>: a slice stored into itself makes compiler.write recurse for ever; the process dies with a fatal stack overflow", map[string]string{"tmpl": "<% vxs[0] = vxs %><%= vxs %>"})
 		}
 		e.rep.Evaluations++
+		// a container changed by the body of the loop that iterates over it; results of slice + used as receivers
+		for _, t := range []string{
+			`<%= for (k, v) in m3 { %><% m3["a"] = nil %><% m3["b"] = nil %><% m3["c"] = nil %><%= k %><% } %>`,
+			`<%= for (k, v) in m3 { %><% m3[k] = nil %><% m3["z" + k] = 1 %><%= v %><% } %>`,
+			`<%= for (i, v) in sl3 { %><% sl3[2] = nil %><% sl3[0] = sl3 + 1 %><%= i %><% } %>`,
+			`<% let b = sl3 + 1 %><%= b.Index(9) %>`, `<% let b = sl3 + 1 %><%= b.Len() %>|<%= b %>|<%= len(b) %>|<%= b[3] %>`, `<% let b = sl3 + 1 %><% b.SetLen(1) %><%= b %>`,
+			`<% let b = (sl3 + 1) + 2 %><%= b %><%= for (x) in sl3 + 1 { %><%= x %><% } %>`, `<% let b = sl3 + nil %><%= b %>`,
+		} {
+			e.c04case("mutate-while-iterating", t, false, map[string]interface{}{"m3": map[string]interface{}{"a": 1, "b": 2, "c": 3}, "sl3": []interface{}{1, 2, 3}})
+		}
 		// the repaired defects stay in the corpus
 		for _, t := range []string{`<%= vm[vnil] %>`, `<% vmi["b"] = "x" %>`, `<% vmi[1] = 1 %>`, `<% vxs[0] = vnil %>`, `<%= vxs[0 - 1] %>`, `<%= len(1) %>`, `<%= truncate("abc", {size: "x"}) %>`, `<% let g = fn(a, b) { return a } %><%= g(1) %>`, `<%= vt1.NilP.Hello("x") %>`, `<%= {let: 1} %>`} {
 			e.c04case("corpus", t, true, nil)
